@@ -185,6 +185,12 @@ def csr_configs(tier, seed, salt=0):
     cfgs.append({"dw": 8, "root": {"t": "dec", "aw": 7, "align": 0, "children": [
         {"node": {"t": "mux", "aw": 3, "regs": [[8, "rw", None], [16, "rw", None], [8, "r", None]], "late": 2}, "name": "late", "addr": 0x10},
         {"node": {"t": "mux", "aw": 2, "regs": [[8, "rw", None], [12, "w", None]], "late": 1, "elab_between": True}, "name": None, "addr": None}]}})
+    # register banks with 10 address bits and registers beyond 0x100 / 0x300 (address constants wider than a byte)
+    cfgs.append({"dw": 8, "root": {"t": "dec", "aw": 12, "align": 0, "children": [
+        {"node": {"t": "bridge", "aw": 4, "regs": [[8, "rw", None], [16, "r", None]]}, "name": "bank0", "addr": None},
+        {"node": {"t": "bridge", "aw": 10, "regs": [[8, "rw", 0], [8, "rw", 0xff], [8, "r", 0x100], [16, "rw", 0x101], [8, "rw", 0x3fe]]},
+         "name": "bank1", "addr": None},
+        {"node": {"t": "mux", "aw": 10, "regs": [[8, "r", 0x100], [24, "rw", 0x2fd], [8, "w", 0x3ff]]}, "name": "bank2", "addr": None}]}})
     for c in cfgs:
         c["directed"] = True          # hand-written hierarchies are valid by construction: a refusal is a violation (must_accept)
     n = 12 if tier == "quick" else 300
